@@ -650,3 +650,79 @@ def run(chk):   # noqa
     _drain_rule(chk, prog)
     _markguard_rule(chk, prog)
     _stale_fiberptr(chk, prog)
+    _markbit_rule(chk, prog)
+
+
+def _markbit_rule(chk, prog):
+    """Some mark functions mark a pointer field only when a bit of a flag word says the field holds a collectable
+    object (the parser's generated error string).  Whoever clears that bit without replacing the pointer turns a live
+    object into an unmarked one: the next collection frees it while the field still points at it."""
+    rule = "C01-MARKBIT"
+    chk.rule(rule, "a flag bit that makes a mark function mark a pointer field is cleared only by code that also replaces that pointer")
+    from rules.c03 import abstract_types
+    marknames = set()
+    for tu, name, vals in abstract_types(prog):
+        mv = vals.get("gcmark")
+        if mv is not None and mv.k == "ref":
+            marknames.add(mv.name)
+    guards = {}      # (rec, flagfield, mask) -> (pointer field, mark function)
+    for fn in prog.all_funcs():
+        if not (fn.name in marknames or (fn.tu.name == "gc.c" and fn.name.startswith("janet_mark"))):
+            continue
+        marks = [x for x in fn.nodes if x.k == "call" and x.callee in ("janet_mark", "janet_mark_table", "janet_mark_abstract", "janet_mark_many")]
+        if not marks:
+            continue
+        chk.analysed(fn)
+        IN, T = flow.condition_facts(fn)
+        for x, S in flow.states_at(fn, IN, T):
+            if x not in marks:
+                continue
+            ptrs = [y for y in x.args[0].walk() if y.k == "mem" and y.rec]
+            for ps in S:
+                for (op, l, r, toks, ln, rn) in ps:
+                    if ln is None or op != "!=" or not (rn is None or rn.v == 0):
+                        continue
+                    b = strip_casts(ln)
+                    if b.k != "bin" or b.op != "&":
+                        continue
+                    for a, m in ((b.kids[0], b.kids[1]), (b.kids[1], b.kids[0])):
+                        a, m = strip_casts(a), strip_casts(m)
+                        if a.k == "mem" and a.rec and m.v is not None:
+                            for pf in ptrs:
+                                if pf.rec == a.rec and pf.field != a.field:
+                                    guards[(a.rec, a.field, m.v)] = (pf.field, fn.name)
+    if not guards:
+        raise AnalysisBroken("no flag-guarded mark found (the parser's generated-error bit was confirmed by hand)")
+    for (rec, ff, mask), (pf, mfn) in sorted(guards.items()):
+        for fn in prog.all_funcs():
+            stores = [x for x in fn.nodes if x.k == "asg" and x.kids[0].k == "mem" and x.kids[0].rec == rec and x.kids[0].field == ff]
+            if not stores:
+                continue
+            replaces = any(x.k == "asg" and x.kids[0].k == "mem" and x.kids[0].rec == rec and x.kids[0].field == pf for x in fn.nodes)
+            for st in stores:
+                chk.instance(rule)
+                rhs = strip_casts(st.kids[1])
+                clearing = False
+                if st.op == "|=":
+                    clearing = False
+                elif st.op == "&=":
+                    clearing = rhs.v is None or (~rhs.v & mask) != 0
+                elif st.op == "=":
+                    if rhs.k == "mem" and rhs.rec == rec and rhs.field == ff:
+                        clearing = False      # copies the bit together with (checked below) the pointer
+                        if not replaces:
+                            clearing = True
+                    else:
+                        clearing = rhs.v is None or (rhs.v & mask) != mask
+                else:
+                    clearing = True
+                if not clearing:
+                    chk.ok(rule, "%s: `%s` keeps bit 0x%x of %s.%s" % (fn.name, st.text()[:40], mask, rec, ff))
+                elif replaces:
+                    chk.ok(rule, "%s: `%s` may clear bit 0x%x and the function also replaces %s.%s" % (fn.name, st.text()[:40], mask, rec, pf))
+                else:
+                    chk.violation(rule, fn.tu.name, fn.name, "%s.%s:0x%x" % (rec, ff, mask), st.loc,
+                                  "`%s` can clear bit 0x%x of %s.%s, the bit under which %s marks %s.%s, and %s does not replace that "
+                                  "pointer: an object it still points at is no longer marked and the next collection frees it" % (
+                                      st.text()[:50], mask, rec, ff, mfn, rec, pf, fn.name))
+    chk.floor(rule, 4)
